@@ -4,6 +4,8 @@
 //!         | {"t":"el","n":name (lower case),"d":display name (case variant),"a":raw attribute text,"k":"n"|"v"|"s"|"r","c":[node..]}
 //!           k: n = normal (start tag, children, end tag), v = void (start tag only), s = self-closing ("<n a/>"),
 //!              r = raw-text element (children = one text node holding the raw text)
+//!   filter objects may carry the OPTIONAL fields of HTMLBodyFilter as extra keys read only here: "inner" (inner_value,
+//!   trace text only: the inserted / replacing bytes must always be `value`), "id", "hash" (target_hash); see `real_filters`.
 //! obs:  hex of filter(serialize(doc)) + end()   (single chunk; chunking is C03's subject)
 //! oracle: obs == serialize(reference_edit(doc, filters)) computed here on the tree (child semantics, see `edit`).
 //! Domain (the property's quantifier; `in_domain` re-checks it on every case, a case outside it is invalid):
